@@ -68,7 +68,7 @@ class Frame(object):
         self.start_byte_ok = off == 0 or (n > 0 and data[0] == 0xF0)
         self.length_byte_ok = n > off and data[off] == n - off
         self.td_len = n - off - 1          # transport data: CMD0 CMD1 Byte0..
-        self.pdu = self.kind = self.pni = self.pfb = None
+        self.pdu = self.kind = self.pni = self.pfb = self.cmd0 = None
         if self.td_len >= 2:
             self.cmd0 = data[off + 1]
             self.pdu = PDU_NAMES.get(data[off + 2], '?')
@@ -98,6 +98,7 @@ class Air(object):
         self.brty = tech            # bit rate / framing currently on the air
         self.max_faults, self.window = max_faults, window
         self.faults_on = False
+        self.skip = 0               # frames still delivered intact once armed
         self.nfaults = 0
         self.nfaultable = 0
         self.frames = []            # every Frame, in order of transmission
@@ -192,9 +193,16 @@ class Air(object):
         self.thread.join(5)
 
     # ---------------------------------------------------------------- faults
+    def arm_faults(self, skip=0):
+        """from now on frames are subject to faults, except the next *skip*"""
+        self.faults_on, self.skip = True, skip
+
     def _fault(self, frame):
         if not self.faults_on or self.nfaults >= self.max_faults or \
                 self.nfaultable >= self.window:
+            return DELIVER
+        if self.skip > 0:
+            self.skip -= 1
             return DELIVER
         self.nfaultable += 1
         f = self.sx.pick("fault%d" % self.nfaultable, [DELIVER, LOSE, CORRUPT])
